@@ -108,3 +108,55 @@ func ZZ_WatchSingle() {
 		verif.Cover("stream complete")
 	}
 }
+
+// ZZ_TailSingle (C12-3): a tail request on a single-resource watch delivers exactly the last N
+// retained events OF THAT RESOURCE (retained = the newest capacity-gap positions), in order, each
+// with a bookmark that is accepted again, and then continues live.  Events of the watched resource
+// "x" sit at every second position counted back from the newest one; the others belong to "y".
+func ZZ_TailSingle() {
+	cfg := zzPickCfg()
+	W := zzSymW(cfg)
+	c := zzCollectionAt(cfg, W, func(p int64) resource.ID {
+		if (W-1-p)%2 == 0 {
+			return "x"
+		}
+		return "y"
+	})
+	n := verif.Int("tail")
+	verif.Assume(verif.And(n >= 1, n <= cfg.capacity+2))
+	ctx, cancel := context.WithCancel(context.Background())
+	defer cancel()
+	ch := make(chan state.Event)
+	verif.Assert(c.Watch(ctx, "x", ch, state.WithTailEvents(n)) == nil, "tail watch established")
+	lo := W - int64(cfg.capacity-cfg.gap) // oldest retained position
+	if lo < 0 {
+		lo = 0
+	}
+	// positions of x inside the retained window, newest first
+	var xs []int64
+	for j := int64(0); j < int64(cfg.capacity); j += 2 {
+		if p := W - 1 - j; p >= lo && len(xs) < n {
+			xs = append(xs, p)
+		}
+	}
+	for k := len(xs) - 1; k >= 0; k-- {
+		ev := <-ch
+		verif.Assert(ev.Type != state.Errored, "a tail within the retained window is never errored")
+		verif.Assert(ev.Resource != nil && ev.Resource.Metadata().ID() == "x" && zzTag(ev) == xs[k], "a tail-events request on one resource delivers exactly its last N retained events, in order")
+		pos, derr := decodeBookmark(ev.Bookmark)
+		verif.Assert(derr == nil && pos == xs[k], "every tail event carries the bookmark of its own position")
+		verif.Assert(pos >= W-int64(cfg.capacity)+int64(cfg.gap), "and that bookmark is inside the window from which a watch can be resumed")
+	}
+	zzPublish(c, "y", W)
+	verif.Quiesce() // the watcher skips the foreign event (it never lags by more than one event here)
+	zzPublish(c, "x", W+1)
+	ev := <-ch
+	verif.Assert(ev.Type != state.Errored && zzTag(ev) == W+1, "after the tail the watch continues live with the next event of that resource")
+	verif.Cover("tail delivered")
+	if len(xs) > 0 {
+		verif.Cover("non-empty tail")
+	}
+	if len(xs) < n {
+		verif.Cover("tail cut by the retained window")
+	}
+}
